@@ -306,7 +306,10 @@ V2Class(M, TS, ev) ==
   LET ref == Holds(M, TS, ev.ctx, ev.o, ev.r, ev.u) IN
   IF DepthBound(M, TS, ev.o, ev.r) > DepthLimit THEN <<"SKIP_DEPTH", ref>>
   ELSE IF ev.got = "ERR" THEN
-         IF ev.shape # "" THEN
+         \* KF-28: the call had no deadline of its own and did not answer within the driver's limit
+         \* (resolver goroutines spawned without bound); the driver cancelled it and kept the input.
+         IF ev.errk = "runaway" THEN <<"KF_V2Runaway", ref>>
+         ELSE IF ev.shape # "" THEN
            (IF (ev.shape = "wildcard" /\ IsWild(ev.u)) \/ (ev.shape = "userset" /\ IsUserset(ev.u))
             THEN <<"OK_V2_SHAPE_ERR", ref>> ELSE <<"BAD_V2_SHAPE_ERR_ON_OBJECT_SUBJECT", ref>>)
          ELSE IF ev.errk = "cond" /\ TouchedE(M, TS, ev.ctx, ev.o, ev.r) THEN <<"OK_ERR", ref>>
@@ -339,7 +342,10 @@ V2Class(M, TS, ev) ==
          ELSE IF IsWild(ev.u) /\ ev.v1 = "T" /\ ref = "T" /\ ev.got = "F" /\ HasTypeCycle(M, ev.o.t, ev.r) THEN <<"KF_V2CycleFalseNegative", ref>>
          ELSE <<"BAD_V2_UNDOCUMENTED_DIFF", ref>>
   ELSE IF ev.v1 = "ERR" THEN
-         (IF ev.reason # "" \/ ev.xreason # "" THEN <<"OK_V2_DOCUMENTED_DIFF", ref>> ELSE CheckClass(M, TS, ev))
+         (IF ev.reason # "" \/ ev.xreason # "" THEN <<"OK_V2_DOCUMENTED_DIFF", ref>>
+          \* KF-8 for userset / wildcard subjects: the branch dropped on a recursive relation would have failed
+          ELSE IF ev.got = "F" /\ ref = "E" /\ HasTypeCycle(M, ev.o.t, ev.r) THEN <<"KF_V2CycleFalseNegative", ref>>
+          ELSE CheckClass(M, TS, ev))
   ELSE <<"OK_V2_SAME_AS_V1", ref>>
 
 TrV2Check ==
